@@ -227,7 +227,12 @@ func ruleC13Tables(cx *Ctx) {
 			}
 			for _, n := range []string{"buckets", "spans", "shift"} {
 				if isTable(ia.X, n) {
-					levels[n] = append(levels[n], ia.Index)
+					role := n
+					if n == "spans" && usedAsDivisor(ia) {
+						// x / spans[level] is x >> shift[level] (C13.tables: spans[k] = 1 << shift[k]): the level's own span
+						role = "shift"
+					}
+					levels[role] = append(levels[role], ia.Index)
 				}
 			}
 			if wheelF != nil && sameField(fieldOf(ia.X), wheelF) {
@@ -281,4 +286,27 @@ func ruleC13Tables(cx *Ctx) {
 			cx.R.Check(ok, rule, name, fmt.Sprintf("spans indexed one level ahead #%d", k+1), cx.P.Pos(fn.Pos()), "a level is chosen by duration < spans[level+1]")
 		}
 	}
+}
+
+
+// usedAsDivisor: every use of the element loaded from this address is as the divisor of a division.
+func usedAsDivisor(ia *ssa.IndexAddr) bool {
+	n := 0
+	for _, u := range usesOf(ia) {
+		ld, ok := u.(*ssa.UnOp)
+		if !ok || ld.Op != token.MUL {
+			return false
+		}
+		for _, w := range usesOf(ld) {
+			if _, isDbg := w.(*ssa.DebugRef); isDbg {
+				continue
+			}
+			b, ok := w.(*ssa.BinOp)
+			if !ok || b.Op != token.QUO || stripConv(b.Y) != ssa.Value(ld) {
+				return false
+			}
+			n++
+		}
+	}
+	return n > 0
 }
